@@ -470,7 +470,15 @@ func (p *c20) injected(u c20unit, j int) (src, what string, off int) {
 				last = before[len(before)-1]
 			}
 			if !(strings.HasPrefix(last, "end") || last == "else") || (len(before) >= 2 && !strings.HasSuffix(before[len(before)-2], "{%")) {
-				return src, "", -1
+				// ... elsewhere a literal that cannot be taken for a name stands in for it (no boundary goes without)
+				lit = []string{"987654", "'surplus'", "12.5"}[(j-B)%3]
+				pol = &injPolicy{at: j - B, tok: "\x02" + lit, closeOnly: true}
+				src, _ = gen.Source(&gen.Template{Body: u.nodes()}, pol)
+				off = strings.Index(src, "\x02")
+				src = strings.Replace(src, "\x02", "", 1)
+				if !pol.done || lexicalEndTagBroken(src) {
+					return src, "", -1
+				}
 			}
 		}
 		return src, fmt.Sprintf("surplus literal %s before the closing delimiter at boundary %d", lit, j-B), off
